@@ -3,10 +3,12 @@
 package vhost
 
 import (
+	"context"
 	"errors"
 	"net"
 	"net/http"
 	"net/url"
+	"time"
 
 	"github.com/fatedier/frp/zzverif"
 )
@@ -23,6 +25,18 @@ var c07 struct {
 	dialedRoute        string
 	status             int
 	challenge          bool
+	deadlines          int // contexts with a time limit derived while serving the request
+}
+
+// stubs for context.WithTimeout / WithDeadline: frp must not put the exchange as a whole under a
+// time limit (only the wait for response headers is limited, by the transport)
+func c07StubWithTimeout(parent context.Context, d time.Duration) (context.Context, context.CancelFunc) {
+	c07.deadlines++
+	return context.WithCancel(parent)
+}
+func c07StubWithDeadline(parent context.Context, d time.Time) (context.Context, context.CancelFunc) {
+	c07.deadlines++
+	return context.WithCancel(parent)
 }
 
 // stub for (*http.Request).BasicAuth: header decoding is net/http's job; any decoded result is possible.
@@ -114,6 +128,7 @@ func VerifC07HTTP() {
 		}
 	}
 	c07.forwards, c07.forwardedRoute, c07.forwardedInfo, c07.dialedRoute, c07.status, c07.challenge = 0, nil, nil, "", 0, false
+	c07.deadlines = 0
 	u := &url.URL{Path: "/x"}
 	if absolute {
 		u.Host = "h.com"
@@ -130,6 +145,7 @@ func VerifC07HTTP() {
 		return
 	}
 	zzverif.Assert(c07.forwards == 1, "C07.http.forwarded-once")
+	zzverif.Assert(c07.deadlines == 0, "C02.serve.exchange-not-put-under-a-time-limit")
 	R := c07.forwardedRoute
 	if R == nil {
 		zzverif.Assert(c07.dialedRoute == "", "C07.http.no-route-no-backend")
